@@ -92,9 +92,16 @@ class StepInterp(Evaluator):
             l = node.left
             if isinstance(l, ast.Name) and isinstance(self.env.get(l.id), Opaque) and self.env[l.id].tag == "option":
                 r = node.comparators[0]
-                if isinstance(r, ast.Constant) and isinstance(node.ops[0], ast.Eq):
+                if isinstance(r, ast.Constant) and isinstance(node.ops[0], (ast.Eq, ast.NotEq)):
                     self.option_literals.add(r.value)
-                    return Opaque("bool", self.env[l.id].payload == r.value)
+                    eq = self.env[l.id].payload == r.value
+                    return Opaque("bool", eq if isinstance(node.ops[0], ast.Eq) else not eq)
+                if isinstance(r, (ast.Tuple, ast.List, ast.Set)) and isinstance(node.ops[0], (ast.In, ast.NotIn)) \
+                        and all(isinstance(x, ast.Constant) for x in r.elts):
+                    for x in r.elts:
+                        self.option_literals.add(x.value)
+                    inn = self.env[l.id].payload in [x.value for x in r.elts]
+                    return Opaque("bool", inn if isinstance(node.ops[0], ast.In) else not inn)
         return super().ev_Compare(node)
 
     # -- statements -----------------------------------------------------------------------------
